@@ -600,9 +600,10 @@ def oracle_plot(case, contour, coords, sample, dc, semantics, swap, impl):
 
     bad = []
     xi, yi = (1, 0) if swap else (0, 1)
+    if len(coords) == 0:
+        # an empty contour is outside the property's quantifier: IndexError or an empty drawing are both accepted
+        return bad, None
     if "err" in impl:
-        if len(coords) == 0 and impl["err"] == "IndexError":
-            return bad, None
         if isinstance(dc, np.ndarray) and impl["err"] == "ValueError" and "truth value" in impl.get("msg", ""):
             bad.append(("design_conditions_array_accepted",
                         f"design_conditions=ndarray{dc.shape} raises ValueError: {impl['msg']}"))
@@ -675,7 +676,9 @@ def process_plot(ck, cases):
             ck.fail({"entry": "plot_2D_contour", "predicate": pred}, case, detail)
         div = None
         mline, mscat, mdc = pairs_from_answer(ans[p]), pairs_from_answer(ans[p + 1]), pairs_from_answer(ans[p + 2])
-        if "err" in impl:
+        if len(coords) == 0:
+            ck.count("plot2d:empty_contour(" + ("model and impl refuse" if "err" in impl and "err" in mline else "not compared") + ")")
+        elif "err" in impl:
             if not ("err" in mline and impl["err"] == "IndexError"):
                 div = f"impl raised {impl['err']}: {impl.get('msg')}; model {list(mline)[0]}"
         elif "err" in mline:
@@ -763,9 +766,9 @@ _DATA = {}
 
 def dataset(name):
     if name not in _DATA:
-        from virocon import read_ec_benchmark_dataset
-
-        _DATA[name] = read_ec_benchmark_dataset(os.path.join(REPO, "datasets", name)).values
+        # read independently of the function under test
+        rows = [l.split(";")[1:] for l in open(os.path.join(REPO, "datasets", name), encoding="utf-8").read().split("\n")[1:] if l]
+        _DATA[name] = np.array([[float(v) for v in r] for r in rows], dtype=float)
     return _DATA[name]
 
 
@@ -1111,11 +1114,15 @@ def run_bench_impl(text):
         except Exception as e:  # noqa: BLE001
             return {"err": type(e).__name__, "msg": str(e)[:200]}
         idx = df.index
+        if not str(idx.dtype).startswith("datetime64"):
+            return {"columns": [str(c) for c in df.columns], "index_name": None if idx.name is None else str(idx.name),
+                    "n": len(df), "stamps": np.zeros((len(df), 4), dtype=int) - 1, "sub_hour": False,
+                    "values": np.zeros((len(df), len(df.columns))) * np.nan, "is_datetime": False}
         return {
             "columns": [str(c) for c in df.columns], "index_name": None if idx.name is None else str(idx.name),
             "n": len(df), "stamps": np.c_[idx.year, idx.month, idx.day, idx.hour].astype(int),
             "sub_hour": bool(np.any(idx.minute != 0) or np.any(idx.second != 0)),
-            "values": np.asarray(df.values, dtype=float).reshape(len(df), -1),
+            "values": np.asarray(df.values, dtype=float).reshape(len(df), len(df.columns)),
             "is_datetime": str(idx.dtype).startswith("datetime64"),
         }
     finally:
@@ -1248,6 +1255,10 @@ def corpus():
         {"kind": "plot2d", "gen": "corpus", "coords": tri, "swap": True, "dc": "none", "n_sample": 3, "contour": "stub"},
         {"kind": "plot2d", "gen": "corpus", "coords": [], "swap": False, "dc": "none", "contour": "stub"},
         {"kind": "plot2d", "gen": [0, 1], "contour": "IFORM", "swap": True, "dc": "true"},
+    ] + [
+        # every contour class (OrContour used to store an object array that matplotlib refused)
+        {"kind": "plot2d", "gen": [0, 2 + i], "contour": name, "swap": bool(i % 2), "dc": "none", "n_sample": 10}
+        for i, name in enumerate(["Or", "And", "DirectSampling", "HDC", "ISORM", "IFORM", "Or"])
     ]
     bench = [
         {"kind": "bench", "gen": "corpus",
@@ -1310,11 +1321,11 @@ def main(ck):
     run_cases(ck, save_c + plot_c + bench_c)
     run_cases(ck, list(real_save_cases()))
     cases = []
-    cases += list(save_cases(rng, ck.seed, 200 * k, 0))
-    cases += list(path_cases(rng, ck.seed, 300 * k, 100000))
-    cases += list(plot_cases(rng, ck.seed, 60 * k, 200000))
-    cases += list(model_cases(rng, ck.seed, 3 * k, 300000))
-    cases += list(bench_cases(rng, ck.seed, 40 * k, 400000, 10000))
+    cases += list(save_cases(rng, ck.seed, 300 * k, 0))
+    cases += list(path_cases(rng, ck.seed, 400 * k, 100000))
+    cases += list(plot_cases(rng, ck.seed, 120 * k, 200000))
+    cases += list(model_cases(rng, ck.seed, 6 * k, 300000))
+    cases += list(bench_cases(rng, ck.seed, 60 * k, 400000, 10000))
     run_cases(ck, cases)
     # real benchmark files of the repo (8760 rows each; some shipped files are empty and skipped)
     for fn in (["ec-benchmark_dataset_A_1year.txt", "ec-benchmark_dataset_B_1year.txt", "ec-benchmark_dataset_C_1year.txt"]
